@@ -131,12 +131,12 @@ def parse_tlc_stats(out):
 
 
 def tlc_verify(name, constants, invariants, workdir, workers=8, timeout=1500,
-               module="MC_tree.tla", view="ViewNoH", constraint="Bounded"):
+               module="MC_tree.tla", view="ViewNoH", constraint="Bounded", spec="Spec"):
     """Design-level check: exhaustive within the constants. Returns stats dict."""
-    cfg = os.path.join(workdir, f"{name}-verify.cfg")
-    write_cfg(cfg, constants, invariants=invariants, view=view, constraint=constraint)
+    cfg = os.path.join(workdir, f"{name}-{module.split('.')[0]}-verify.cfg")
+    write_cfg(cfg, constants, invariants=invariants, view=view, constraint=constraint, spec=spec)
     t0 = time.time()
-    cex = os.path.join(workdir, f"{name}-cex.json")
+    cex = os.path.join(workdir, f"{name}-{module.split('.')[0]}-cex.json")
     rc, out = run_tlc(module, cfg, workdir, workers=workers, timeout=timeout,
                       extra=["-dumpTrace", "json", cex])
     st = parse_tlc_stats(out)
